@@ -8,3 +8,4 @@ import RB.Util.SessionJson
 import RB.Proofs.C06
 import RB.Model.Identity
 import RB.Proofs.C07
+import RB.Proofs.C08
